@@ -191,7 +191,10 @@ def main():
                 # the operation panicked although scripted words were still unread: the property module says whether that is a failure
                 o = mod.panic_with_words_left(req, wleft[ri], build)
             if o:
-                oracle_fail.append({"build": build, "request": req, "impl": im, "model": mo, "oracle": o})
+                item = {"build": build, "request": req, "impl": im, "model": mo, "oracle": o}
+                if isinstance(o, dict):          # an oracle over SEVERAL requests (two seeds that collide) names them all, so that the replay runs them all
+                    item.update(o)
+                oracle_fail.append(item)
             if (mod.canon(im) if hasattr(mod, "canon") else im) != mo:
                 disagreements.append({"build": build, "request": req, "impl": im, "model": mo})
         # extra, property-specific searches (exhaustive enumerations of small draw spaces …)
